@@ -265,10 +265,11 @@ def run(ck):
                 where[o["id"]] = (k, lang)
                 obs.append(o)
     if os.environ.get("VERIF_C12_CORRUPT"):
-        # development self-test: flipping the recorded shell verdict of unmutated programs must be noticed
+        # development self-test: flipping the recorded parser verdict of unmutated programs must be noticed
+        # (a flipped shell verdict would be healed by the real -n confirmation run)
         for o in obs[::37]:
             if o["mut"] == 0 and o["impl"] == "ok" and o["shell"] == "ok":
-                o["shell"] = "rejected"
+                o["impl"] = "rejected"
     work = vlib.scratch("c12-")
     try:
         tp = os.path.join(work, "obs.ndjson")
